@@ -2901,3 +2901,51 @@ def every_placement_of_the_call_compiles(ctx):
     from . import placements
 
     placements.law(ctx)
+
+
+# ---------------------------------------------------------------------------------------- applicability of a dependent type
+def dependent_applicability_is_the_subtype_test_of_the_bound(ctx):
+    """A value-dependent type is applicable to a class exactly when the class passes the *subtype test* against the
+    bound (the generated wrapper then tests the value only): `DependentType.__is_supertype__` interpreted with the
+    subtype test and the order function as independent stubs - the answer follows the subtype test, whatever the
+    order function says (for an intersection bound the order says LESS for a subclass of one member only)."""
+    from ..metainterp import HostFn, HostInterp, Instance, Raised, Record
+
+    repo = ctx.repo
+    cands = [c for c in repo.all_classes() if c.name == "DependentType" or ("__is_supertype__" in c.methods and "check" in c.methods and "type" in c.base_names)]
+    ctx.require(len(cands) >= 1, "the value-dependent base class was not found")
+    D = [c for c in cands if "__is_supertype__" in c.methods]
+    ctx.require(len(D) == 1, "the value-dependent base class has no applicability hook")
+    D = D[0]
+    m = D.methods["__is_supertype__"]
+    ctx.touch(m)
+    raw = repo.raw_methods(D)
+    en = A.order_enum(repo)
+    bad = None
+    n = 0
+    for sub_answer in (True, False):
+        for order_answer in ("LESS", "SAME", "MORE", "NONE"):
+            me = Instance(D.name, raw)
+            me.__dict__.update(bound="BOUND", parameters=(), __args__=())
+            order = Record(**{k: f"<{k}>" for k in ("LESS", "SAME", "MORE", "NONE")})
+            genv = {
+                "subclasscheck": HostFn(lambda a, b, _s=sub_answer: _s if (a, b) == ("CLS", "BOUND") else False),
+                "typeorder": HostFn(lambda a, b, _o=order_answer, _ord=order: getattr(_ord, _o) if (a, b) == ("CLS", "BOUND") else _ord.NONE),
+                en.name: order,
+                "issubclass": HostFn(lambda a, b, _s=sub_answer: _s),
+            }
+            hi = HostInterp(raw, me, {}, globals_env=genv, classes={D.name: raw}, functions={})
+            try:
+                got = hi.call_function(raw["__is_supertype__"], [me, "CLS"], {}, {})
+            except (AnalysisError, Raised, TypeError, AttributeError) as e:
+                raise AnalysisError(f"{m.key}: not interpretable: {e}")
+            n += 1
+            if bool(got) != sub_answer and got is not NotImplemented and bad is None:
+                bad = f"for a class that {'passes' if sub_answer else 'fails'} the subtype test against the bound while the order function says {order_answer}, the type is {'applicable' if got else 'not applicable'}"
+    ctx.ob(
+        f"{m.key}:follows-the-subtype-test",
+        m.loc(),
+        f"a value-dependent type is applicable to a class exactly when the class passes the subtype test against the bound ({n} combinations of subtype-test and order answers interpreted)",
+        bad is None,
+        (bad or "") + ": the wrapper tests the value only, so the method is entered with an argument outside its bound (e.g. a subclass of one member of an intersection bound)",
+    )
